@@ -373,8 +373,7 @@ def run(ck):
     tmc = [s for s in walk_local(tm) if isinstance(s, ast.Assign) and u(s.targets[0]) == 'mol.citations']
     ck.ob('ALIAS-copy', mod.loc(tm), len(tmc) == 1 and isinstance(tmc[0].value, ast.Call) and call_attr(tmc[0].value) == 'copy',
           'Block.to_molecule gives the molecule its own citation set', key='ALIAS-copy|to_molecule-citations')
-    na = [s for s in walk_local(tm) if isinstance(s, ast.Assign) and u(s.targets[0]) == 'new_atom']
-    ck.ob('ALIAS-copy', mod.loc(tm), len(na) == 1 and call_attr(na[0].value) == 'copy', 'Block.to_molecule builds each atom from a copy of the defaults', key='ALIAS-copy|to_molecule-atoms')
+    to_molecule_fresh_atom(ck, 'ALIAS-copy')
     # edges_between used by subgraph: edges only among kept nodes
     eb = [c for c in walk_local(sg) if isinstance(c, ast.Call) and call_attr(c) == 'edges_between']
     ck.ob('PROV-subgraph', mod.loc(sg), len(eb) == 1 and [u(a) for a in eb[0].args] == ['nodes', 'nodes'], 'subgraph copies the edges among the kept nodes only',
@@ -433,3 +432,23 @@ def run(ck):
     from . import shared
     shared.truthy_zero(ck, [MOL, 'vermouth/system.py', 'vermouth/processors/merge_chains.py', 'vermouth/processors/merge_all_molecules.py'])
     ck.assume('arbitrary interleavings beyond these invariants are not decided; node keys of a receiving molecule are assumed comparable (ints)')
+
+
+def to_molecule_fresh_atom(ck, rule):
+    """Block.to_molecule builds every atom from its *own* copy of the defaults, made inside the loop over the atoms: one dictionary updated atom after atom hands
+    an attribute the previous atom had (a charge, a `replace` rule) on to the next atom that lacks it.  Shared with C13 (the blocks of a .mapping file are made
+    through to_molecule)."""
+    mod = ck.index.mod(MOL)
+    tm = ck.need(method(mod.cls('Block'), 'to_molecule'), 'Block.to_molecule vanished')
+    ck.analysed(mod, tm)
+    na = [s for s in walk_local(tm) if isinstance(s, ast.Assign) and u(s.targets[0]) == 'new_atom']
+    def fresh(v):
+        # x.copy() / dict(x) / copy.copy(x) / {**x}: a new dictionary per evaluation
+        return (isinstance(v, ast.Call) and (call_attr(v) == 'copy' or call_name(v) in ('dict', 'copy.copy', 'copy.deepcopy'))) or \
+            (isinstance(v, ast.Dict) and any(k is None for k in v.keys))
+    ok = len(na) == 1 and fresh(na[0].value)
+    if ok:
+        loop = mod.enclosing(na[0], ast.For)
+        adds = [c for c in walk_local(tm) if isinstance(c, ast.Call) and call_attr(c) == 'add_node']
+        ok = loop is not None and u(loop.iter).startswith('enumerate(self') and len(adds) == 1 and any(adds[0] is x for x in ast.walk(loop)) and unconditional_in(tm, loop.body, na[0])
+    ck.ob(rule, mod.loc(tm), ok, 'Block.to_molecule builds each atom from a copy of the defaults made for that atom (inside the loop over the atoms)', key=rule + '|to_molecule-atoms')
